@@ -92,10 +92,19 @@ def coqc(path, timeout=600):
     return p.returncode, p.stdout
 
 
+_CASE_DIRS = {}
+
+
 def case_dir(pid):
-    d = os.path.join(BUILD, 'cases', pid)
-    os.makedirs(d, exist_ok=True)
-    return d
+    """scratch directory of the generated case files: one per process, so that two runs of the same property at the
+    same time (quick and thorough, a seed evaluation ...) do not overwrite each other's files; removed at exit"""
+    if pid not in _CASE_DIRS:
+        import atexit, shutil
+        d = os.path.join(BUILD, 'cases', '%s.%d' % (pid, os.getpid()))
+        os.makedirs(d, exist_ok=True)
+        _CASE_DIRS[pid] = d
+        atexit.register(shutil.rmtree, d, True)
+    return _CASE_DIRS[pid]
 
 
 def run_case_files(pid, files, timeout=900):
